@@ -17,6 +17,7 @@ O (direct oracle on the implementation): every 302 `Location` the real flow prod
 import base64
 import hashlib
 import hmac as _hmac
+import io
 import json
 import struct
 import types
@@ -674,7 +675,8 @@ class Flow:
     def get(self, path: str, query_string: str = "", headers: dict[str, str] | None = None, method: str = "GET") -> Any:
         self.m._exchange_code_for_token = self.exchange_stub
         try:
-            return self.client.simulate_request(method, path, query_string=query_string, headers=headers or {})
+            return self.client.simulate_request(method, path, query_string=query_string, headers=headers or {},
+                                                wsgierrors=io.StringIO())  # Falcon writes tracebacks of the provoked 500s there
         except AssertionError as e:  # wsgiref.validate: the application produced an illegal header value
             return types.SimpleNamespace(status_code=599, headers={}, cookies={}, bad_header=str(e)[:200])
 
@@ -920,7 +922,7 @@ def run(ctx: Any) -> None:
         k_unsafe_chars(ctx, m)
         k_cookies(ctx, m, ctx.budget(120, 3000))
         # ---- K1 / K2 on the grammar
-        n_urls = ctx.budget(6000, 150000) * (3 if deep and ctx.tier != "thorough" else 1)
+        n_urls = ctx.budget(10000, 200000) * (3 if deep and ctx.tier != "thorough" else 1)
         urls: list[tuple[str, tuple[str, ...]]] = [(u, a) for a in ALLOWLISTS for u in WITNESS_URLS]
         for _ in range(n_urls):
             a = ALLOWLISTS[0] if rng.random() < 0.5 else rng.choice(ALLOWLISTS)
@@ -940,7 +942,7 @@ def run(ctx: Any) -> None:
             for wp, wq in WITNESS_PATHS:
                 origs.append((up.unquote(wp) + ("?" + wq if wq else ""), p))
                 origs.append((p + up.unquote(wp), p))
-        for _ in range(ctx.budget(3000, 60000)):
+        for _ in range(ctx.budget(4000, 80000)):
             p = rng.choice(PREFIXES)
             r = rng.random()
             if r < 0.5:
